@@ -50,6 +50,9 @@ def gen_msg(rng, target, dotlines=0, hopcount=0, hop_in_body=0):
     return hdr + body + b'.\r\n'
 
 
+PLAINLY_INVALID = ('garbage', 'empty', 'helo_noarg', 'data_arg', 'mail_nobracket')
+
+
 def run_job(ctx, b, name, seqs_msgs, databytes, vocab):
     """seqs_msgs: list of (command names, message bytes or None)"""
     envtok = W.env_token(databytes=databytes)
@@ -89,6 +92,19 @@ def run_job(ctx, b, name, seqs_msgs, databytes, vocab):
                 fails.append((case, str(final), 'fails limit-not-reached-but-refused'))
         if r.fault:
             fails.append((case, 'session', 'fails memory-safety-or-crash: ' + r.fault[:150]))
+        # the bad-command clause on the transcript alone: after MAXBADCMDS + 2 = 7 consecutive commands that are
+        # invalid by construction (unknown verb, empty line, missing or surplus argument, missing bracket)
+        # the connection is closed: nothing that follows is answered
+        run = 0
+        for i, n in enumerate(s):
+            run = run + 1 if n in PLAINLY_INVALID else 0
+            if run == 7:
+                later = [o['codes'] for o in obs[i + 1:] if o['codes']]
+                if later:
+                    fails.append((case, 'replies after the 7th invalid command in a row: %s' % later[:4], 'fails bad-command-limit: connection not closed after 7 consecutive invalid commands'))
+                break
+            if n == 'post' or (n not in PLAINLY_INVALID and n not in ('noop', 'rset', 'ehlo', 'vrfy', 'helo', 'quit')):
+                break          # commands whose effect on the counter this oracle does not judge
     ctx.cov['evaluations'] += len(seqs_msgs)
     ctx.cov['traces_validated_against_impl'] += len(seqs_msgs)
     ctx.cov['distinct_nontrivial'] += len(seqs_msgs)
@@ -119,6 +135,9 @@ def limit_payload(rng, k, layout):
         hdr = [b'Subject: s', b'Delivered-To: nobody@elsewhere.example'] + rec + known
     elif layout == 'folded':
         hdr = known[:2] + [x for r in rec for x in (r, b'\tfolded continuation')] + known[2:]
+    elif layout == 'folded-at-colon':
+        # the field name alone on its line, the rest folded: the line is exactly "Received:"
+        hdr = known[:2] + [x for i, r in enumerate(rec) for x in ((b'Received:', b'\tfrom x by y') if i % 3 else (r,))] + known[2:]
     elif layout == 'delivered-to-rcpt':
         # the other loop test of smtp_data(): a Delivered-To: line naming a recipient
         hdr = known + rec + [rng.choice([b'Delivered-To: alice@example.org', b'DELIVERED-TO: Alice@Example.Org', b'Delivered-To: alice@example.org  '])]
@@ -172,7 +191,7 @@ def limit_specs(ctx):
                 'txs': [{'mail': HX(b'MAIL FROM:<s@remote.example>'), 'rcpts': [HX(rcpt)], 'payload': {'hex': HX(payload)},
                          'cuts': None, 'greet': None, 'tag': tag}], 'post': [HX(b'NOOP'), HX(b'QUIT')]}
     modes = [('plain', {}), ('strict', {'strict_all': 1}), ('submission', {'port': '587', 'relay': 'listed'})]
-    layouts = ['first', 'after', 'between', 'after-other', 'folded', 'none-known', 'delivered-to-rcpt']
+    layouts = ['first', 'after', 'between', 'after-other', 'folded', 'folded-at-colon', 'none-known', 'delivered-to-rcpt']
     for mname, mw in modes:
         for k in ([99, 100, 101, 102] if quick else range(97, 106)):
             for lay in layouts:
@@ -249,6 +268,10 @@ def run(ctx):
                     s += [rng.choice(bad) for _ in range(rng.randrange(1, k + 1))] + [rng.choice(good)]
                 s += [rng.choice(bad) for _ in range(k)] + ['noop', 'quit']
                 jobs.append((s, None))
+        for k in (6, 7, 8, 10):
+            for _ in range(3 if ctx.quick() else 20):
+                jobs.append((['ehlo'] + [rng.choice(PLAINLY_INVALID) for _ in range(k)] + ['noop', 'quit'], None))
+                jobs.append((['ehlo', 'mail'] + [rng.choice(['helo_noarg', 'data_arg', 'mail_nobracket']) for _ in range(k)] + ['noop', 'quit'], None))
         run_job(ctx, b, 'bad-command-runs', jobs, None, vocab)
         # SIZE= parameter and stored size around databytes
         for db in ([0, 2000] if ctx.quick() else [0, 300, 2000, 70000]):
